@@ -186,8 +186,8 @@ unsigned short le_word(const byte *d)
 
 unsigned long le_quad(const byte *d)
 {
-  return static_cast<unsigned long>(d[0] | (d[1] << 8u) |
-				    (d[2] << 16u) | (d[3] << 24u));
+  return static_cast<unsigned long>(d[0]) | (static_cast<unsigned long>(d[1]) << 8u) |
+    (static_cast<unsigned long>(d[2]) << 16u) | (static_cast<unsigned long>(d[3]) << 24u);
 }
 
 std::optional<Header> read_and_verify_header(DFS::FileAccess *f, std::string& error)
